@@ -2,7 +2,7 @@
   C14 — the REGENERATED glyph / draw_string code equals the hand-written model.
 
   `EG/Generated/TextSrc.lean` is written by `tools/tr_textsrc.py` from /repo's Rust text on every run of a check.
-  This file proves `<name>_src_eq_model` for the functions C14 rests on — `StrGlyphMapping::{index, contains}`
+  This file proves `<name>_src_eq_model` for the functions C14 rests on — `StrGlyphMapping::{chars, index, contains}`
   (src/mono_font/mapping.rs), `MonoFont::glyph`, `DecorationDimensions::get_bounding_box` (src/mono_font/mod.rs),
   `DecorationColor::effective_color` (src/text/mod.rs), `MonoTextStyle::{line_elements, draw_string_binary,
   draw_decorations, draw_string, draw_whitespace}` (src/mono_font/mono_text_style.rs) — against `EG/Model/Font.lean`, and restates C14's `index` and
@@ -22,10 +22,12 @@
     `draw_string_binary` (with its `return` at `Done`) to the hand model's `drawStringBinary` for every `fuel >=
     2 * len + 1` (`loop_src_eq_model`, `draw_string_binary_src_eq_model`; guard `GlyphsFit` = `GlyphFits` for
     every character of the text).
-  NOT regenerated (bound by the prelude to the hand model, see its header): `StrGlyphMapping::chars`, the image draw
-  of a glyph (`Image_draw`), `MonoFontDrawTarget`'s lowering.
+  * `StrGlyphMapping::chars()` (the `from_fn(..).flatten()` decoder of `\0 start end` ranges, `?` inside the
+    closure) = the hand model's `expand` for every `fuel > data.len()` (`chars_go`, `chars_src_eq_model`); `index` and
+    `contains` take the same `fuel`. `start..=end` on chars is the prelude's `char_range_inclusive` = `Font.charRange`.
+  NOT regenerated (bound by the prelude to the hand model, see its header): the image draw of a glyph (`Image_draw`),
+  `MonoFontDrawTarget`'s lowering, the iteration of a `RangeInclusive<char>` (std).
 
-  -- [V] `StrGlyphMapping::chars()` (the `from_fn(..).flatten()` decoder of `\0 start end` ranges, with `?` inside the closure) is not regenerated: the regenerated `index` / `contains` are proved over the hand model's `expand`, which stays tied to the source by the font.index / font.glyph correspondence only
   -- [V] `Image::new(&glyph, p).draw(target)` and `MonoFontDrawTarget`'s colour lowering (src/mono_font/draw_target.rs) are bound by the prelude to C09's image model / `Font.Mode.lower`, not regenerated
 -/
 import EG.Generated.TextSrc
@@ -39,6 +41,74 @@ open EG EG.Font EG.RectSrcPrelude EG.TextSrcPrelude EG.Generated EG.C16.Src EG.C
 /-- the prelude's `StrGlyphMapping` as the hand model's `StrMapping` -/
 abbrev mappingOf (m : StrGlyphMapping) : StrMapping := ⟨m.data, m.replacement_index⟩
 
+/-- the `from_fn` closure of `chars()` as the translator writes it (`chars_unfold`: by `rfl`) -/
+def charsStep : List Nat → Option (List Nat) × List Nat := fun chars =>
+      let (q_, chars) := iter_next chars
+      match q_ with
+        | Option.none => (Option.none, chars)
+        | Option.some scrut_ =>
+          (match scrut_ with
+            | 0 =>
+                let (q_, chars) := iter_next chars
+                match q_ with
+                  | Option.none => (Option.none, chars)
+                  | Option.some start =>
+                    let (q_, chars) := iter_next chars
+                    match q_ with
+                      | Option.none => (Option.none, chars)
+                      | Option.some end_ =>
+                        let range := char_range_inclusive start end_
+                        (Option.some range, chars)
+            | c =>
+                let range := char_range_inclusive c c
+                (Option.some range, chars))
+
+theorem chars_unfold (fuel : Nat) (m : StrGlyphMapping) :
+    TextSrc.StrGlyphMapping_chars fuel m =
+      iter_flatten_from_fn fuel (from_fn_mk (str_chars (StrGlyphMapping_data m)) charsStep) := rfl
+
+theorem charRange_self (c : Nat) : charRange c c = [c] := by
+  simp [charRange, charRangeGo]
+
+/-- the regenerated decoder, from any rest of the mapping string: the concatenated ranges are the hand model's
+`expand` as soon as the fuel exceeds the number of characters left -/
+theorem chars_go : ∀ (n : Nat) (l : List Nat), l.length < n →
+    (from_fn_to_list n ⟨l, charsStep⟩).flatten = expand l := by
+  intro n
+  induction n with
+  | zero => intro l h; omega
+  | succ n ih =>
+    intro l h
+    cases l with
+    | nil => rfl
+    | cons c rest =>
+      cases c with
+      | succ k =>
+        have hs : charsStep ((k + 1) :: rest) = (some (charRange (k + 1) (k + 1)), rest) := rfl
+        simp only [from_fn_to_list, hs, List.flatten_cons, charRange_self]
+        rw [ih rest (by simp at h; omega)]
+        rfl
+      | zero =>
+        cases rest with
+        | nil => rfl
+        | cons s r2 =>
+          cases r2 with
+          | nil => rfl
+          | cons e r3 =>
+            have hs : charsStep (0 :: s :: e :: r3) = (some (charRange s e), r3) := rfl
+            simp only [from_fn_to_list, hs, List.flatten_cons]
+            rw [ih r3 (by simp at h; omega)]
+            rfl
+
+/-- `StrGlyphMapping::chars()` = the hand model's `expand`, for every fuel above the length of the mapping string. -/
+theorem chars_src_eq_model (fuel : Nat) (m : StrGlyphMapping) (h : m.data.length < fuel) :
+    TextSrc.StrGlyphMapping_chars fuel m = expand m.data := by
+  rw [chars_unfold]
+  exact chars_go fuel m.data h
+
+example : TextSrc.StrGlyphMapping_chars 7 ⟨[0, 97, 102, 0, 49, 52], 0⟩ = [97, 98, 99, 100, 101, 102, 49, 50, 51, 52] := by
+  decide
+
 theorem find_enumerate_eq_findGo (c : Nat) (l : List Nat) (k : Nat) :
     option_map (iter_find (List.map (fun p => (p.2, p.1)) (l.zipIdx k)) (fun ((_, v) : Nat × Nat) => char_eq c v))
       (fun ((index, _) : Nat × Nat) => index) = findGo c l k := by
@@ -51,17 +121,17 @@ theorem find_enumerate_eq_findGo (c : Nat) (l : List Nat) (k : Nat) :
     · simp only [h, decide_false]
       exact ih (k + 1)
 
-theorem index_src_eq_model (m : StrGlyphMapping) (c : Nat) :
-    TextSrc.StrGlyphMapping_GlyphMapping_index m c = (mappingOf m).index c := by
+theorem index_src_eq_model (fuel : Nat) (m : StrGlyphMapping) (c : Nat) (h : m.data.length < fuel) :
+    TextSrc.StrGlyphMapping_GlyphMapping_index fuel m c = (mappingOf m).index c := by
   unfold TextSrc.StrGlyphMapping_GlyphMapping_index StrMapping.index
-  simp only [iter_enumerate, StrGlyphMapping_chars, StrGlyphMapping_replacement_index]
+  simp only [iter_enumerate, chars_src_eq_model fuel m h, StrGlyphMapping_replacement_index]
   rw [find_enumerate_eq_findGo]
   cases findGo c (expand m.data) 0 <;> rfl
 
-theorem contains_src_eq_model (m : StrGlyphMapping) (c : Nat) :
-    TextSrc.StrGlyphMapping_contains m c = (mappingOf m).contains c := by
+theorem contains_src_eq_model (fuel : Nat) (m : StrGlyphMapping) (c : Nat) (h : m.data.length < fuel) :
+    TextSrc.StrGlyphMapping_contains fuel m c = (mappingOf m).contains c := by
   unfold TextSrc.StrGlyphMapping_contains StrMapping.contains
-  simp only [iter_any, StrGlyphMapping_chars, char_eq]
+  simp only [iter_any, chars_src_eq_model fuel m h, char_eq]
   congr 1
 
 /-! ### `MonoFont::glyph` -/
@@ -325,27 +395,31 @@ theorem draw_string_src_eq_model (fuel : Nat) (s : MonoTextStyle) (text : List N
 /-! ### C14's claims, about the regenerated functions -/
 
 /-- the regenerated `index`: the first position of `c` among the mapped characters, else the replacement index -/
-theorem src_index_spec (m : StrGlyphMapping) (c : Nat) :
-    TextSrc.StrGlyphMapping_GlyphMapping_index m c =
-      if c ∈ expand m.data then (expand m.data).idxOf c else m.replacement_index := by
-  rw [index_src_eq_model]; exact C14.index_spec _ _
+theorem src_index_spec (fuel : Nat) (m : StrGlyphMapping) (c : Nat) (h : m.data.length < fuel) :
+    TextSrc.StrGlyphMapping_GlyphMapping_index fuel m c =
+      if c ∈ TextSrc.StrGlyphMapping_chars fuel m then (TextSrc.StrGlyphMapping_chars fuel m).idxOf c
+      else m.replacement_index := by
+  rw [index_src_eq_model fuel m c h, chars_src_eq_model fuel m h]; exact C14.index_spec _ _
 
-example : TextSrc.StrGlyphMapping_GlyphMapping_index ⟨[0, 97, 102, 0, 49, 52], 0⟩ 50 = 7 := by decide
+example : TextSrc.StrGlyphMapping_GlyphMapping_index 7 ⟨[0, 97, 102, 0, 49, 52], 0⟩ 50 = 7 := by decide
 
-theorem src_index_of_unmapped (m : StrGlyphMapping) (c : Nat) (h : c ∉ expand m.data) :
-    TextSrc.StrGlyphMapping_GlyphMapping_index m c = m.replacement_index := by
-  rw [index_src_eq_model]; exact C14.index_of_unmapped (mappingOf m) c h
+theorem src_index_of_unmapped (fuel : Nat) (m : StrGlyphMapping) (c : Nat) (hf : m.data.length < fuel)
+    (h : c ∉ TextSrc.StrGlyphMapping_chars fuel m) :
+    TextSrc.StrGlyphMapping_GlyphMapping_index fuel m c = m.replacement_index := by
+  rw [chars_src_eq_model fuel m hf] at h
+  rw [index_src_eq_model fuel m c hf]; exact C14.index_of_unmapped (mappingOf m) c h
 
-theorem src_mapped_chars_own_index (m : StrGlyphMapping) (c₁ c₂ : Nat) (h₁ : c₁ ∈ expand m.data)
-    (h₂ : c₂ ∈ expand m.data)
-    (h : TextSrc.StrGlyphMapping_GlyphMapping_index m c₁ = TextSrc.StrGlyphMapping_GlyphMapping_index m c₂) :
+theorem src_mapped_chars_own_index (fuel : Nat) (m : StrGlyphMapping) (c₁ c₂ : Nat) (hf : m.data.length < fuel)
+    (h₁ : c₁ ∈ TextSrc.StrGlyphMapping_chars fuel m) (h₂ : c₂ ∈ TextSrc.StrGlyphMapping_chars fuel m)
+    (h : TextSrc.StrGlyphMapping_GlyphMapping_index fuel m c₁ = TextSrc.StrGlyphMapping_GlyphMapping_index fuel m c₂) :
     c₁ = c₂ := by
-  rw [index_src_eq_model, index_src_eq_model] at h
+  rw [chars_src_eq_model fuel m hf] at h₁ h₂
+  rw [index_src_eq_model fuel m _ hf, index_src_eq_model fuel m _ hf] at h
   exact C14.mapped_chars_own_index (mappingOf m) c₁ c₂ h₁ h₂ h
 
-theorem src_contains_iff (m : StrGlyphMapping) (c : Nat) :
-    TextSrc.StrGlyphMapping_contains m c = true ↔ c ∈ expand m.data := by
-  rw [contains_src_eq_model]
+theorem src_contains_iff (fuel : Nat) (m : StrGlyphMapping) (c : Nat) (hf : m.data.length < fuel) :
+    TextSrc.StrGlyphMapping_contains fuel m c = true ↔ c ∈ TextSrc.StrGlyphMapping_chars fuel m := by
+  rw [contains_src_eq_model fuel m c hf, chars_src_eq_model fuel m hf]
   unfold StrMapping.contains
   simp [List.any_eq_true]
 
